@@ -691,21 +691,45 @@ def _surely_has_key(path, ev, obj, key) -> bool:
     """The local dictionary `obj` certainly holds `key` when event `ev` happens: it was created with it (a display, or the result of
     get_attributes(.., attributes={key: ..}) / of get_attributes over an object whose `_key` is not omitted) or the key was stored
     into it, and nothing removed it since."""
+    def made_with(v, upto, depth=0):
+        """The dictionary built by the (closed) expression holds the key."""
+        if depth > 4:
+            return False
+        if isinstance(v, ast.Name):
+            return v.id in path.objdefs and _surely_has_key(path, upto, v.id, key)
+        if isinstance(v, ast.Dict):
+            return any(isinstance(k, ast.Constant) and k.value == key for k in v.keys) or any(k is None and made_with(x, upto, depth + 1) for k, x in zip(v.keys, v.values))
+        if isinstance(v, ast.Call) and call_name(v) == "get_attributes":
+            kw = {k.arg: k.value for k in v.keywords}
+            start = kw.get("attributes", v.args[2] if len(v.args) > 2 else None)
+            omit = kw.get("omit_list", v.args[1] if len(v.args) > 1 else None)
+            literal = omit is None or isinstance(omit, (ast.List, ast.Tuple, ast.Set)) and all(isinstance(x, ast.Constant) for x in omit.elts)
+            harvested = key == "uid" and literal and not any(isinstance(x, ast.Constant) and x.value == "_" + key for x in ast.walk(omit or ast.Tuple(elts=[])))
+            return harvested or (start is not None and made_with(start, upto, depth + 1))
+        # copies with the same keys: dict(d), d.copy(), deepcopy(d), {k: f(v) for k, v in d.items()}
+        if isinstance(v, ast.Call) and (isinstance(v.func, ast.Name) and v.func.id in ("dict", "deepcopy", "copy") and len(v.args) == 1 and not v.keywords
+                                        or isinstance(v.func, ast.Attribute) and v.func.attr in ("deepcopy",) and len(v.args) == 1):
+            return made_with(v.args[0], upto, depth + 1)
+        if isinstance(v, ast.Call) and isinstance(v.func, ast.Attribute) and v.func.attr == "copy" and not v.args:
+            return made_with(v.func.value, upto, depth + 1)
+        if isinstance(v, ast.DictComp) and len(v.generators) == 1 and not v.generators[0].ifs:
+            g = v.generators[0]
+            it = g.iter
+            if isinstance(g.target, ast.Tuple) and len(g.target.elts) == 2 and _t(v.key) == _t(g.target.elts[0]) \
+                    and isinstance(it, ast.Call) and isinstance(it.func, ast.Attribute) and it.func.attr == "items" and not it.args:
+                return made_with(it.func.value, upto, depth + 1)
+            if isinstance(g.target, ast.Name) and _t(v.key) == g.target.id:
+                if isinstance(it, ast.Call) and isinstance(it.func, ast.Attribute) and it.func.attr == "keys" and not it.args:
+                    it = it.func.value
+                return made_with(it, upto, depth + 1)
+        return False
+
     has = False
     for e in path.before(ev):
         if e.maybe:
             continue
         if e.kind == "obj" and _t(e.expr) == obj:
-            v = e.value
-            has = isinstance(v, ast.Dict) and any(isinstance(k, ast.Constant) and k.value == key for k in v.keys)
-            if isinstance(v, ast.Call) and call_name(v) == "get_attributes":
-                kw = {k.arg: k.value for k in v.keywords}
-                start = kw.get("attributes", v.args[2] if len(v.args) > 2 else None)
-                omit = kw.get("omit_list", v.args[1] if len(v.args) > 1 else None)
-                given = isinstance(start, ast.Dict) and any(isinstance(k, ast.Constant) and k.value == key for k in start.keys)
-                literal = omit is None or isinstance(omit, (ast.List, ast.Tuple, ast.Set)) and all(isinstance(x, ast.Constant) for x in omit.elts)
-                harvested = key == "uid" and literal and not any(isinstance(x, ast.Constant) and x.value == "_" + key for x in ast.walk(omit or ast.Tuple(elts=[])))
-                has = given or harvested
+            has = made_with(e.value, e)
         elif e.kind == "store" and isinstance(e.expr, ast.Subscript) and _t(e.expr.value) == obj and isinstance(e.expr.slice, ast.Constant) and e.expr.slice.value == key:
             has = True
         elif e.kind == "del" and isinstance(e.expr, ast.Subscript) and _t(e.expr.value) == obj and (not isinstance(e.expr.slice, ast.Constant) or e.expr.slice.value == key):
